@@ -1,6 +1,12 @@
-"""C09 - half math functions: the exactly specifiable part.
+"""C09 - half math functions.
 
-Decided here (TLA+ oracle specs/Half.tla, evaluated by TLC on every recorded evaluation):
+Decided here (TLA+ oracles specs/Half.tla, specs/HalfTrans.tla, evaluated by TLC on every recorded evaluation):
+  * the main clause - exp exp2 log log10 log2 sin cos tan sincos asin acos atan sinh cosh tanh asinh acosh atanh return the correctly
+    rounded binary16 value of the real function, expm1 and log1p a value within one ulp of it: TLC computes a rigorous enclosure of the
+    real value (HalfReal.tla: ball arithmetic on integers in base-2^14 limbs; HalfTrans.tla: argument reductions and power series with
+    proven tail bounds; 42 fraction bits, 70 when that does not decide) and rounds both ends; all 65 536 arguments of every function in
+    the thorough tier, a stratified sample (every exponent x boundary fractions, a stride, random, the hardest-to-round arguments) in
+    the quick tier;
   * ceil floor trunc round rint nearbyint lround lrint llround llrint frexp modf ilogb logb and cbrt (correctly rounded, by
     wide-integer cubes) on all 65 536 halves; ldexp/scalbn/scalbln on halves x exponents; nextafter, nexttoward (long double
     targets one long-double ulp around each half), fmod, remainder, remquo, fdim, fmax, fmin on the grid S x S, on the special
@@ -9,11 +15,10 @@ Decided here (TLA+ oracle specs/Half.tla, evaluated by TLC on every recorded eva
   * the C99 Annex F special cases (NaN, +-inf, +-0, domain and pole errors) of every other function, on all 65 536
     halves (unary) and on S x S (atan2, pow, hypot), plus the arguments whose mathematical result is itself a half
     (exp2 of integers, log2 of powers of two, log10 of powers of ten), which "exact to rounding" forces;
-  * all of the above once more while the calling thread's rounding direction is upward / downward / toward zero (the functions
-    are integer algorithms; rint, nearbyint, lrint, llrint - which C defines to follow the direction and the library documents as
-    following its own, fixed, mode - may answer either way there).
-NOT decided: correct rounding / 1-ulp bounds of the transcendental functions on ordinary arguments (no reals, no
-arbitrary precision in TLA+/TLC) - the MANIFEST claim says so.
+  * all of the above (except the real-function tables) once more while the calling thread's rounding direction is upward / downward /
+    toward zero (the functions are integer algorithms; rint, nearbyint, lrint, llrint - which C defines to follow the direction and the
+    library documents as following its own, fixed, mode - may answer either way there).
+NOT decided: the 1-ulp bounds of atan2, pow, erf, erfc, lgamma, tgamma on ordinary arguments - the MANIFEST claim says so.
 """
 import os, random, threading
 from vlib import core, halfgrid as hg
@@ -24,6 +29,67 @@ TRANS = ["exp", "exp2", "expm1", "log", "log10", "log2", "log1p", "cbrt", "sin",
          "sinh", "cosh", "tanh", "asinh", "acosh", "atanh", "erf", "erfc", "lgamma", "tgamma"]
 BIN = ["fmod", "remainder", "remquo", "fdim", "fmax", "fmin", "nextafter", "atan2", "pow", "hypot"]
 BIN_EXACT = ["fmod", "remainder", "remquo", "fdim", "fmax", "fmin", "nextafter"]
+
+
+# the functions judged against the enclosure of the real function (specs/HalfTrans.tla): correct rounding, one ulp for the last two
+REAL_CR = ["exp", "exp2", "log", "log10", "log2", "sin", "cos", "tan", "sincos", "asin", "acos", "atan", "sinh", "cosh", "tanh", "asinh", "acosh", "atanh"]
+REAL_ULP1 = ["expm1", "log1p"]
+REAL = REAL_CR + REAL_ULP1
+
+
+def hard_cases():
+    """per function the arguments whose exact result lies closest to a rounding midpoint (inputs only, see vlib/half_hardcases_gen.py)"""
+    import json
+    path = os.path.join(os.path.dirname(hg.__file__), "half_hardcases.json")
+    if not os.path.exists(path):
+        return {}
+    with open(path) as f:
+        return json.load(f)["cases"]
+
+
+def real_sample(seed, f, hard):
+    """quick tier: every exponent field x boundary fractions x both signs (zeros, subnormals, infinities, NaNs included), every
+    509th half from a seeded offset, seeded random halves, the listed hard cases of f and their neighbours' sign twins."""
+    rnd = random.Random(seed * 2741 + sum(map(ord, f)))
+    xs = []
+    for e in range(32):
+        for m in (0, 0x3FF, 1, 0x200, rnd.getrandbits(10)):
+            for sg in (0, 0x8000):
+                xs.append(sg | (e << 10) | m)
+    xs += list(range(seed % 509, 65536, 509))
+    xs += [rnd.getrandbits(16) for _ in range(64)]
+    for g in ([f] if f != "sincos" else ["sin", "cos"]):
+        for h in hard.get(g, []):
+            xs += [h, h ^ 0x8000]
+    seen, out = set(), []
+    for x in xs:
+        if x not in seen:
+            seen.add(x); out.append(x)
+    return out
+
+
+def real_jobs(ctx, counts):
+    """the main clause of C09: each listed function against the enclosure TLC computes from HalfTrans.tla.  Thorough: all 65 536
+    arguments of every function; quick: a stratified sample."""
+    jobs = []
+    hard = hard_cases()
+    counts["real_functions"] = len(REAL)
+    if ctx.quick:
+        n = 0
+        for i, fs in enumerate(hg.chunks(REAL, 5)):
+            rows = [hg.hdr(S=[0])]
+            for f in fs:
+                xs = real_sample(ctx.seed, f, hard)
+                n += len(xs)
+                rows += [{"k": "ux", "f": f, "cr": 1, "x": c} for c in hg.chunks(xs, 32)]
+            jobs.append(hg.Job("real-%d" % i, rows))
+        counts["real_arguments_per_function"] = n // len(REAL)
+    else:
+        for f in REAL:           # sincos too: both outputs of the combined entry point, on every argument
+            for part, lo in enumerate(range(0, 65536, 16384)):
+                jobs.append(hg.Job("real-%s-%d" % (f, part), [hg.hdr(S=[0])] + [dict(r, cr=1) for r in hg.unary_rows([f], block=128, lo=lo, hi=lo + 16384)]))
+        counts["real_arguments_per_function"] = 65536
+    return jobs
 
 
 def exponents():
@@ -208,7 +274,9 @@ def make_jobs(ctx, counts):
     jobs.append(hg.Job("hypot-rm", [hg.hdr(S=H)] + hg.with_rm(hg.bin_rows("hypot_full", H[(sd % 4)::4]), sd) + hg.with_rm(trow[(sd % 4)::4], sd + 1)))
     jobs.append(hg.Job("ldexp-rm", [hg.hdr(S=[0], E=E)] + hg.with_rm([{"k": "ld", "f": f, "a": a} for f in ("ldexp", "scalbn", "scalbln") for a in rsub], sd)))
     counts.update({"grid": len(S), "hypot_grid": len(H), "hypot3_triples": len(X), "exponents": len(E)})
-    return jobs, S
+    rj = real_jobs(ctx, counts)
+    # the costly tables first (thorough: they dominate the run)
+    return (rj + jobs if not q else jobs[:3] + rj + jobs[3:]), S
 
 
 def replay(ctx, path):
@@ -220,7 +288,9 @@ def selftest(ctx):
 
 
 ASSUMPTIONS = [
-    "PARTIAL CLAIM: accuracy of the transcendental functions on ordinary arguments is not decidable with TLA+/TLC and is not checked",
+    "PARTIAL CLAIM: the 1-ulp accuracy of atan2, pow, erf, erfc, lgamma, tgamma on ordinary arguments is not specified here (only their Annex F cases and exact points)",
+    "the enclosures of the real functions rest on the series identities and tail bounds stated in HalfReal.tla / HalfTrans.tla (guarded by the TLC-checked "
+    "laws of HalfLaws.tla and cross-checked against mpmath during development); an argument at which the 70-bit enclosure does not decide is accepted with either neighbour",
     "HALF_ROUND_STYLE = 1 (the default); HALF_ERRHANDLING_* (exception flags / errno) and HALF_ARITHMETIC_TYPE are not exercised; NaN results compared as 'is a NaN'",
     "where C leaves a result open (sign of a zero from nextafter, fmax/fmin of +0/-0, lround of inf/NaN, remquo bits above the low three, hypot(x, y, z) with an "
     "infinite and a NaN argument) every conforming answer is accepted",
@@ -263,9 +333,18 @@ def run(ctx):
     nident = sum(1 for s in summaries if s["identical"])
     ctx.notes["tables"] = [{k: s[k] for k in ("job", "evaluations", "identical", "validated_tables")} for s in summaries]
     ctx.notes["inputs"] = counts
-    ctx.notes["not_decided"] = ("correct rounding / 1-ulp accuracy of exp exp2 expm1 log log10 log2 log1p sin cos tan sincos asin acos atan "
-                                "atan2 sinh cosh tanh asinh acosh atanh pow erf erfc lgamma tgamma on ordinary arguments: only their Annex F special cases and "
+    ctx.notes["not_decided"] = ("1-ulp accuracy of atan2 pow erf erfc lgamma tgamma on ordinary arguments: only their Annex F special cases and "
                                 "exactly representable results are checked")
+    # the main clause: enclosures of the real functions
+    real = [s for s in summaries if s["job"].startswith("real-")]
+    und = [u for s in real for u in s.get("undecided", [])]
+    ctx.notes["real_functions"] = {"correctly_rounded": REAL_CR, "within_one_ulp": REAL_ULP1,
+                                   "arguments_per_function": counts.get("real_arguments_per_function"),
+                                   "evaluations": sum(s["evaluations"] for s in real),
+                                   "undecided": len(und), "undecided_cases": und[:40],
+                                   "meaning_of_undecided": "the enclosure computed with 70 fraction bits still straddles a rounding boundary: both neighbours are accepted"}
+    if und:
+        ctx.log("enclosures undecided at %d (function, argument) pairs: %s" % (len(und), und[:8]))
     # evaluations whose specification is a definite value (for the transcendental functions only special arguments are)
     trans_rows = sum(s["evaluations"] * max(1, s["validated_tables"]) for s in summaries if s["job"].startswith("annexf") or s["job"].split("-")[0] in ("atan2", "pow", "hypot"))
     ctx.notes["evaluations_transcendental_tables"] = trans_rows
@@ -275,8 +354,10 @@ def run(ctx):
     # that were witnessed.  Grid pairs, repetitions under another rounding direction or build and the transcendental tables
     # (mostly "no exact requirement") are not counted.
     exhaustive_unary = sum(s["evaluations"] for s in summaries if s["job"].startswith("round-") and s["job"] != "round-rm")
-    ctx.cov["distinct_nontrivial"] = exhaustive_unary + sum(ncases.values())
-    ctx.notes["distinct_nontrivial_is"] = "%d (function, argument) pairs of the exhaustive unary tables + %d witnessed cases of the case analysis" % (exhaustive_unary, sum(ncases.values()))
+    real_pairs = sum(s["evaluations"] for s in real) - len(und)
+    ctx.cov["distinct_nontrivial"] = exhaustive_unary + sum(ncases.values()) + real_pairs
+    ctx.notes["distinct_nontrivial_is"] = ("%d (function, argument) pairs of the exhaustive unary tables + %d witnessed cases of the case analysis + %d decided "
+                                           "(function, argument) pairs of the real-function tables" % (exhaustive_unary, sum(ncases.values()), real_pairs))
     ctx.notes["cases_witnessed"] = ("distinct cases of the oracle's case analysis (specs/HalfCases.tla) reached by TLC's bounded search, one executed witness pair each: %s "
                                     "(mod: fmod/remainder/remquo; add: fdim; cmp: fmax/fmin/nextafter/fdim)" % ncases)
     ctx.sample({"job": jobs[3].name, "request": [str(r)[:160] for r in jobs[3].rows[:3]]})
@@ -285,7 +366,12 @@ def run(ctx):
         ctx.cov["evaluations"], len(summaries), nident, len(drivers.items), ncases))
     return core.finish(
         ctx, "exploration",
-        rule="TLA+ oracle Half.tla evaluated by TLC on every recorded evaluation (one state each). Exhaustive over all 65 536 halves for ceil floor trunc "
+        rule="Main clause: for exp exp2 log log10 log2 sin cos tan sincos asin acos atan sinh cosh tanh asinh acosh atanh TLC computes a rigorous enclosure of "
+             "the real function value at the binary16 argument (HalfReal.tla: integer ball arithmetic in base-2^14 limbs with outward rounding, 42 then 70 "
+             "fraction bits; HalfTrans.tla: argument reduction + power series with proven tail bounds); when both ends of the enclosure round to the same "
+             "half that half is the correctly rounded result and the recorded result must equal it (expm1, log1p: within one ulp of it); %s arguments per "
+             "function, %d undecided. Further: "
+             "TLA+ oracle Half.tla evaluated by TLC on every recorded evaluation (one state each). Exhaustive over all 65 536 halves for ceil floor trunc "
              "round rint nearbyint lround lrint llround llrint frexp modf ilogb logb, for cbrt (correctly rounded) and for the Annex F special cases / exactly "
              "representable results of 25 transcendental functions; fmod remainder remquo fdim fmax fmin nextafter nexttoward and the Annex F cases of atan2 pow "
              "hypot on S x S with |S|=%d, on the 28 special operands among themselves and on one witness pair per case of the oracle's case analysis (%s); hypot "
@@ -294,7 +380,7 @@ def run(ctx):
              "distinct_nontrivial counts the (function, argument) pairs of the exhaustive unary tables of the 15 exactly specified functions plus the "
              "distinct cases of the case analysis (HalfCases.tla key: operand classes, exponent distance, remainder zero / below / exactly / above half "
              "the divisor, quotient parity, result class ...) for which TLC found a witness pair that was then executed." % (
-                 counts["grid"], ncases, counts["hypot_grid"], counts["hypot_grid"], counts["hypot3_triples"],
+                 counts.get("real_arguments_per_function"), len(und), counts["grid"], ncases, counts["hypot_grid"], counts["hypot_grid"], counts["hypot3_triples"],
                  "S" if q else "all 65 536 halves (scalbln; S for the two aliases)", counts["exponents"], "; ".join(d for _, _, d in drivers.items)),
         assumptions=ASSUMPTIONS,
         exhaustive=False)
